@@ -18,7 +18,10 @@ import (
 	"vt/internal/ev"
 	"vt/internal/fx/alpha"
 	betav1 "vt/internal/fx/beta/v1"
+	"vt/internal/fx/delta"
 	gammav1 "vt/internal/fx/gamma/v1"
+	lcodec "vt/internal/fx/left/codec"
+	rcodec "vt/internal/fx/right/codec"
 	"vt/internal/script"
 )
 
@@ -31,10 +34,36 @@ var fxPaths = map[string]string{
 	"alpha": "vt/internal/fx/alpha",
 	"beta":  "vt/internal/fx/beta/v1",
 	"gamma": "vt/internal/fx/gamma/v1",
+	"delta": "vt/internal/fx/delta",
+	"left":  "vt/internal/fx/left/codec",
+	"right": "vt/internal/fx/right/codec",
+}
+
+// fxRep: one type per fixture package (for blank declarations that keep harness-side imports used)
+var fxRep = map[string]string{"alpha": "Int", "beta": "Kind", "gamma": "Level", "delta": "Mixed", "left": "Opt", "right": "Opt"}
+
+// fxImportedBy: the fixture packages that (transitively) import the key; a type that mentions one of them cannot be written
+// inside the key package (import cycle)
+var fxImportedBy = map[string][]string{
+	"alpha": {"beta", "delta"},
+	"beta":  {"delta"},
+	"gamma": {"delta"},
+	"left":  {"delta"},
+	"right": {"delta"},
+}
+
+// ownTargetPossible: can a type that mentions the given fixture packages be written inside package own?
+func ownTargetPossible(own string, mentioned func(pkg string) bool) bool {
+	for _, importer := range fxImportedBy[own] {
+		if mentioned(importer) {
+			return false
+		}
+	}
+	return true
 }
 
 // harness-side import aliases used to spell types in probe files
-var fxAlias = map[string]string{"alpha": "hx_alpha", "beta": "hx_beta", "gamma": "hx_gamma"}
+var fxAlias = map[string]string{"alpha": "hx_alpha", "beta": "hx_beta", "gamma": "hx_gamma", "delta": "hx_delta", "left": "hx_left", "right": "hx_right"}
 
 type fixtures struct {
 	fset  *token.FileSet
@@ -277,6 +306,8 @@ var registry = func() []regEntry {
 		{nm("alpha", "Embedded"), rtOf[alpha.Embedded]()}, {nm("alpha", "Wide"), rtOf[alpha.Wide]()},
 		{nm("beta", "Kind"), rtOf[betav1.Kind]()}, {nm("beta", "Same"), rtOf[betav1.Same]()}, {nm("beta", "Spec"), rtOf[betav1.Spec]()},
 		{nm("gamma", "Same"), rtOf[gammav1.Same]()}, {nm("gamma", "Level"), rtOf[gammav1.Level]()}, {nm("gamma", "Status"), rtOf[gammav1.Status]()},
+		{nm("delta", "Mixed"), rtOf[delta.Mixed]()}, {nm("delta", "Either"), rtOf[delta.Either]()},
+		{nm("left", "Opt"), rtOf[lcodec.Opt]()}, {nm("left", "Mode"), rtOf[lcodec.Mode]()}, {nm("right", "Opt"), rtOf[rcodec.Opt]()}, {nm("right", "Level"), rtOf[rcodec.Level]()},
 		// instantiations
 		{inst("alpha", "Box", bs("int")), rtOf[alpha.Box[int]]()},
 		{inst("alpha", "Box", bs("string")), rtOf[alpha.Box[string]]()},
@@ -361,9 +392,9 @@ func (n *tn) toReflect() (rt reflect.Type, ok bool) {
 
 var scalarBasics = []string{"bool", "int", "int8", "int16", "int32", "int64", "uint", "uint8", "uint16", "uint32", "uint64", "uintptr", "float32", "float64", "string", "byte", "rune"}
 var namedScalars = []*tn{nm("alpha", "Bool"), nm("alpha", "Int"), nm("alpha", "Int8"), nm("alpha", "Int64"), nm("alpha", "Uint16"), nm("alpha", "Uintptr"), nm("alpha", "Float32"),
-	nm("alpha", "Float64"), nm("alpha", "String"), nm("alpha", "Rune"), nm("alpha", "Byte"), nm("beta", "Kind"), nm("gamma", "Level")}
+	nm("alpha", "Float64"), nm("alpha", "String"), nm("alpha", "Rune"), nm("alpha", "Byte"), nm("beta", "Kind"), nm("gamma", "Level"), nm("left", "Mode"), nm("right", "Level")}
 var namedComposite = []*tn{nm("alpha", "Wide"), nm("alpha", "Strings"), nm("alpha", "IntMap"), nm("alpha", "Arr"), nm("alpha", "Point"), nm("alpha", "Same"), nm("alpha", "Named"), nm("alpha", "Embedded"),
-	nm("beta", "Same"), nm("beta", "Spec"), nm("gamma", "Same"), nm("gamma", "Status"), nm("alpha", "Matrix")}
+	nm("beta", "Same"), nm("beta", "Spec"), nm("gamma", "Same"), nm("gamma", "Status"), nm("alpha", "Matrix"), nm("delta", "Mixed"), nm("delta", "Either"), nm("left", "Opt"), nm("right", "Opt")}
 
 var generics = []struct {
 	pkg, name string
@@ -420,7 +451,9 @@ func genKeyType(t *rapid.T) *tn {
 	}
 }
 
-var structTags = []string{`json:"a"`, `json:"a,omitempty" yaml:"b"`, `name:"x.y"`, `k:"v:w"`, `a:"1" b:"2"`, `validate:"@len[1,3]"`}
+var structTags = []string{`json:"a"`, `json:"a,omitempty" yaml:"b"`, `name:"x.y"`, `k:"v:w"`, `a:"1" b:"2"`, `validate:"@len[1,3]"`,
+	// tags are part of the identity of a struct type exactly as written: odd blanks, free text, non-ASCII
+	`json:"a"  yaml:"b"`, "json:\"a\"\tyaml:\"b\"", ` json:"a" `, `doc:"two  blanks"`, ` `, `free text, not key:"value" pairs`, `x:"é中"`, `q:"a\"b"`, `esc:"a\\nb"`}
 
 // genType draws a closed type expression.
 func genType(t *rapid.T, depth int) *tn {
